@@ -95,3 +95,86 @@ def main_frame(function=None):
         sys.exit(1)
     print("not reproduced")
     sys.exit(0)
+
+
+def main_frame_errors(function=None, ks=range(1, 25)):
+    """the power flow handed to the diagnostic (public `run=` argument) fails with an error that is not a convergence error at its k-th call;
+    diagnose_network swallows such errors (diag_errors) and returns normally -- the net must be what it was"""
+    import logging
+    logging.disable(logging.CRITICAL)
+    fails = []
+
+    def flaky(k):
+        state = {"n": 0}
+
+        def run(net, **kw):
+            state["n"] += 1
+            if state["n"] == k:
+                raise UserWarning("no reference bus: the power flow cannot be started")
+            return pp.runpp(net, **kw)
+        return run
+
+    def more_nets():
+        n = nw.example_simple()
+        n.load.scaling = 1000.
+        yield "simple, overload", n
+        n = nw.example_simple()
+        n.switch.closed = False
+        yield "simple, all switches open", n
+        n = nw.example_simple()
+        n.load.scaling = 1000.
+        n.gen["slack"] = True
+        pp.create_gen(n, 3, p_mw=1., vm_pu=1.0, in_service=False)
+        yield "simple, overload, a slack gen and an out-of-service gen", n
+    for name, net in more_nets():
+        for k in ks:
+            before = copy.deepcopy(net)
+            try:
+                Diagnostic().diagnose_network(net, report_style=None, run=flaky(k))
+            except Exception as e:
+                print("diagnose_network raised", type(e).__name__, e)
+            diff = _equal(before, net)
+            if diff:
+                fails.append(f"{name}: the power flow call number {k} of the diagnostic run fails with a UserWarning (swallowed by diagnose_network): "
+                             f"the net is modified afterwards: {diff}")
+                net = before
+                break
+    # networks in which a check's own modified power flow fails with another error than a convergence error
+    n = pp.create_empty_network()
+    b = [pp.create_bus(n, 20.) for _ in range(5)]
+    pp.create_ext_grid(n, b[0], vm_pu=1.0); pp.create_gen(n, b[1], p_mw=1., vm_pu=1.05)
+    for f, t in ((0, 2), (1, 2), (2, 3)):
+        pp.create_line(n, b[f], b[t], 5., "NA2XS2Y 1x95 RM/25 12/20 kV")
+    pp.create_load(n, b[3], p_mw=5000., q_mvar=1000.)           # no power flow solution
+    pp.create_switch(n, b[0], b[1], et="b", closed=False)       # open coupler between the ext_grid bus (1.0) and the gen bus (1.05)
+    pp.create_switch(n, b[3], b[4], et="b", closed=False)
+    n2 = pp.create_empty_network()
+    b = [pp.create_bus(n2, 20.) for _ in range(3)]
+    pp.create_gen(n2, b[0], p_mw=1., vm_pu=1.0, slack=True); pp.create_gen(n2, b[2], p_mw=1., vm_pu=1.0, in_service=False)
+    pp.create_line(n2, b[0], b[1], 5., "NA2XS2Y 1x95 RM/25 12/20 kV"); pp.create_line(n2, b[1], b[2], 5., "NA2XS2Y 1x95 RM/25 12/20 kV")
+    pp.create_load(n2, b[2], p_mw=1.)
+    for name, net in (("no solution, open coupler between an ext_grid bus (1.0 p.u.) and a gen bus (1.05 p.u.)", n),
+                      ("slack gen and an out-of-service gen", n2)):
+        before = copy.deepcopy(net)
+        try:
+            Diagnostic().diagnose_network(net, report_style=None)
+        except Exception as e:
+            print("diagnose_network raised", type(e).__name__, e)
+        diff = _equal(before, net)
+        if diff:
+            fails.append(f"{name}: diagnose_network modified the net: {diff}")
+    # an element that is replaced by the implausible-impedance check is a group member
+    n = nw.example_multivoltage()
+    n.xward.loc[n.xward.index[0], ["r_ohm", "x_ohm"]] = 1e-4
+    n.load.scaling = 50.
+    pp.create_group(n, ["xward", "line"], [[n.xward.index[0]], [n.line.index[0]]], name="g")
+    before = copy.deepcopy(n)
+    Diagnostic().diagnose_network(n, report_style=None)
+    if not before.group.reset_index().equals(n.group.reset_index()):
+        fails.append(f"implausible xward that is a group member, network does not converge: net.group changed from "
+                     f"{before.group[['element_type', 'element_index']].values.tolist()} to {n.group[['element_type', 'element_index']].values.tolist()}")
+    for f in fails:
+        print("REPRODUCED:", f)
+    if not fails:
+        print("not reproduced: the net is unchanged after diagnostic runs with failing power flows")
+    sys.exit(1 if fails else 0)
